@@ -18,6 +18,8 @@ C9  two-armed assignment     `if c: x = A else: x = B` -> `x = A if c else B`; a
 C11 argument style           a call of a repository function is brought into the positional/keyword style that all call sites of
                              that function have in the calibrated tree (`f(x=a, y=b)` <-> `f(a, b)`); functions whose sites
                              disagree there, constructors and * / ** calls are left alone
+C0  vanished known helpers   a known private function that is gone, where its known caller now has exactly what inlining it produces
+                             (verified statement by statement, up to local names): call and function are put back
 C12 canonical private names  a known private method / function / attribute that vanished while an unknown one of the same shape
                              (parameters, similar body; for attributes the same pattern of uses) appeared is that name renamed:
                              renamed back everywhere
@@ -1543,6 +1545,151 @@ def _rename_scope(node: ast.AST, mapping: dict[str, str]) -> None:
         g.ifs = [r.visit(c) for c in g.ifs]
 
 
+# ------------------------------------------------------------------------------------------------ C0 vanished known helpers
+def _alpha_text(stmts: list[ast.stmt], free: set[str]) -> str:
+    """Text of a statement list with every name that is not in `free` renamed by order of first occurrence."""
+    holder = ast.Module(body=copy.deepcopy(stmts), type_ignores=[])
+    order = _seq(holder)
+    names: dict[str, str] = {}
+    for n in sorted(ast.walk(holder), key=lambda x: order.get(id(x), 0)):
+        if isinstance(n, ast.Name) and n.id not in free:
+            names.setdefault(n.id, f"v{len(names)}")
+    for n in ast.walk(holder):
+        if isinstance(n, ast.Name) and n.id in names:
+            n.id = names[n.id]
+        if isinstance(n, ast.JoinedStr):
+            n.values = []
+    return ast.unparse(holder)
+
+
+def restore_merged_helpers(trees: dict[str, ast.Module], known: dict) -> list[str]:
+    """C0: a private function the tables know has vanished and the statements its known caller now has in the place of the
+    call are exactly what inlining the known function there produces (up to the names of its locals): the call and the
+    function are put back.  *Verified* un-inlining — a merged copy that was changed in any way is left as it is, and the
+    rules anchored on the vanished function then fail as analysis errors rather than judge stale code."""
+    sources: dict[str, str] = known.get("sources", {})
+    if not sources:
+        return []
+    current = {q for mod, tree in trees.items() for q, _ in _functions_with_quals(mod, tree)}
+    cur_names = {q.rsplit(":", 1)[1].split(".")[-1] for q in current}
+    restored: list[str] = []
+    for q, src in sources.items():
+        name = q.rsplit(":", 1)[1].split(".")[-1]
+        if q in current or name in cur_names or not name.startswith("_") or name.startswith("__"):
+            continue
+        mod, rest = q.split(":")
+        if mod not in trees:
+            continue
+        cls_name = rest.split(".")[0] if "." in rest else None
+        x_def = ast.parse(src).body[0]
+        # known callers present in the current tree
+        for cq, csrc in sources.items():
+            if cq == q or cq not in current or (name + "(") not in csrc:
+                continue
+            cmod, crest = cq.split(":")
+            f_known = ast.parse(csrc).body[0]
+            f_cur = next((fn for qq, fn in _functions_with_quals(cmod, trees[cmod]) if qq == cq), None)
+            if f_cur is None:
+                continue
+            # the statement of the known caller that calls X, and its path
+            site = None
+            for blk_path, block in _blocks_with_paths(f_known):
+                for i, st in enumerate(block):
+                    calls = [c for c in ast.walk(st) if isinstance(c, ast.Call) and ((isinstance(c.func, ast.Attribute) and c.func.attr == name) or (isinstance(c.func, ast.Name) and c.func.id == name))]
+                    if calls and isinstance(st, (ast.Assign, ast.AnnAssign, ast.Return, ast.Expr, ast.AugAssign)) and st.value is calls[0] and len(calls) == 1:
+                        site = (blk_path, i, st, calls[0])
+            if site is None:
+                continue
+            blk_path, i, st, call = site
+            is_method = cls_name is not None
+            h = Helper(q, x_def, ast.ClassDef(name=cls_name or "_", bases=[], keywords=[], body=[], decorator_list=[]) if is_method else None, mod)
+            if not h.inlinable:
+                continue
+            receiver = call.func.value if isinstance(call.func, ast.Attribute) and not h.static else None
+            inl = _Inliner({}, set())
+            expected = inl._expand(h, st, call, receiver, f_known)
+            if expected is None:
+                continue
+            cur_block = _block_at(f_cur, blk_path)
+            known_block = _block_at(f_known, blk_path)
+            if cur_block is None or known_block is None:
+                continue
+            # the rest of the two blocks must line up: same number of statements around the site
+            extra = len(cur_block) - len(known_block)
+            if extra != len(expected) - 1 or extra < 0:
+                continue
+            got = cur_block[i : i + len(expected)]
+            free = _all_names(f_known) | set(_params(f_cur))
+            if _alpha_text(expected, free) != _alpha_text(got, free):
+                continue
+            # put the call and the function back
+            new_stmt = copy.deepcopy(st)
+            ast.copy_location(new_stmt, got[0])
+            for n in ast.walk(new_stmt):
+                if not hasattr(n, "lineno"):
+                    continue
+                n.lineno, n.col_offset = got[0].lineno, got[0].col_offset
+                n.end_lineno, n.end_col_offset = got[0].lineno, got[0].col_offset
+            cur_block[i : i + len(expected)] = [new_stmt]
+            holder = trees[mod].body
+            if is_method:
+                cdef = next((c for c in trees[mod].body if isinstance(c, ast.ClassDef) and c.name == cls_name), None)
+                if cdef is None:
+                    break
+                holder = cdef.body
+            if not any(isinstance(d, (ast.FunctionDef, ast.AsyncFunctionDef)) and d.name == name for d in holder):
+                anchor = next((d for d in holder if hasattr(d, "lineno")), None)
+                for n in ast.walk(x_def):
+                    if hasattr(n, "lineno"):
+                        n.lineno = getattr(got[0], "lineno", 1)
+                        n.end_lineno = n.lineno
+                holder.append(x_def)
+            restored.append(f"{q} (merged into {cq})")
+            break
+    return restored
+
+
+def _blocks_with_paths(fn: ast.AST):
+    """(path, block) for every statement list of a function; a path is a tuple of (statement index, field name) steps."""
+
+    def rec(block, path):
+        yield path, block
+        for i, st in enumerate(block):
+            for fld in ("body", "orelse", "finalbody"):
+                sub = getattr(st, fld, None)
+                if isinstance(sub, list) and sub and isinstance(sub[0], ast.stmt) and not isinstance(st, (ast.FunctionDef, ast.AsyncFunctionDef, ast.ClassDef)):
+                    yield from rec(sub, path + ((i, fld),))
+            for hi, hnd in enumerate(getattr(st, "handlers", []) or []):
+                yield from rec(hnd.body, path + ((i, f"handler{hi}"),))
+
+    yield from rec(fn.body, ())
+
+
+def _block_at(fn: ast.AST, path: tuple) -> list[ast.stmt] | None:
+    block = _strip_doc(fn.body) if not path else None
+    block = fn.body
+    # known sources have their docstring stripped: align the first index
+    offset = len(fn.body) - len(_strip_doc(fn.body))
+    first = True
+    for i, fld in path:
+        idx = i + (offset if first else 0)
+        first = False
+        if idx >= len(block):
+            return None
+        st = block[idx]
+        if fld.startswith("handler"):
+            hs = getattr(st, "handlers", None)
+            k = int(fld[7:])
+            if not hs or k >= len(hs):
+                return None
+            block = hs[k].body
+        else:
+            block = getattr(st, fld, None)
+        if not isinstance(block, list):
+            return None
+    return block if path else fn.body[offset:] if False else block
+
+
 # ------------------------------------------------------------------------------------------------ C12 canonical private names
 def _name_tables(trees: dict[str, ast.Module]) -> dict:
     """classes: qual -> {methods: {name: n_params}, attrs: {attr: usage signature}}; funcs: module -> {name: n_params};
@@ -1902,7 +2049,14 @@ def snapshot(trees: dict[str, ast.Module]) -> dict:
         for q, fn in _functions_with_quals(mod, tree):
             if ".<" not in q:
                 bodies[q] = ast.unparse(ast.Module(body=_strip_doc(fn.body), type_ignores=[]))
-    return {"functions": funcs, "call_styles": call_styles(trees), "name_tables": _name_tables(canon_trees), "bodies": bodies}
+    sources: dict[str, str] = {}
+    for mod, tree in canon_trees.items():
+        for q, fn in _functions_with_quals(mod, tree):
+            if ".<" not in q:
+                f2 = copy.deepcopy(fn)
+                f2.body = _strip_doc(f2.body) or [ast.Pass()]
+                sources[q] = ast.unparse(f2)
+    return {"functions": funcs, "call_styles": call_styles(trees), "name_tables": _name_tables(canon_trees), "bodies": bodies, "sources": sources}
 
 
 def canonicalize(trees: dict[str, ast.Module], known: dict | None) -> dict:
@@ -1914,6 +2068,7 @@ def canonicalize(trees: dict[str, ast.Module], known: dict | None) -> dict:
         kf = known["functions"]
         # names first: a known private function that was merely renamed must not be mistaken for a new helper
         log["renamed_private"] = canonical_private_names(trees, known)
+        log["restored_helpers"] = restore_merged_helpers(trees, known)
         inl = _Inliner(trees, set(kf))
         inl.run()
         log["inlined_helpers"] = inl.inlined
